@@ -530,11 +530,19 @@ func c20AlignedFreeFilter(c *Ctx) {
 	}
 	f := d.Block[put.Block()]
 	leaves := d.Leaves(f)
-	if len(leaves) != 1 {
-		c.Unres("C20.O6", key, fmt.Sprintf("the filter depends on %v; expected only the buffer's capacity", sortedKeys(leaves)))
+	leaf := ""
+	var others []string
+	for _, l := range sortedKeys(leaves) {
+		if strings.Contains(l, "cap(") && leaf == "" {
+			leaf = l
+		} else {
+			others = append(others, l)
+		}
+	}
+	if leaf == "" || len(others) > 3 {
+		c.Unres("C20.O6", key, fmt.Sprintf("the filter depends on %v; expected the buffer's capacity (and at most a few flags)", sortedKeys(leaves)))
 		return
 	}
-	leaf := sortedKeys(leaves)[0]
 	min := c.pkgConstInt("mempool", "minAlignedBufferSize")
 	max := c.pkgConstInt("mempool", "maxAlignedBufferSize")
 	if min <= 0 || max < min {
@@ -544,15 +552,22 @@ func c20AlignedFreeFilter(c *Ctx) {
 	witness := ""
 	n := 0
 	for size := int64(0); size <= max+2*min; size++ {
-		n++
-		got, err := d.Eval(f, eng.Env{leaf: size})
-		if err != nil {
-			c.Unres("C20.O6", key, err.Error())
-			return
-		}
-		want := size >= min && size <= max && size&(size-1) == 0
-		if got && !want && witness == "" {
-			witness = fmt.Sprintf("a buffer of capacity %d is put into the pools although %d is not a class size: it is filed under the next larger class and a later Malloc of a size between %d and that class re-slices it beyond its capacity (panic), or hands out fewer bytes than the class promises", size, size, size+1)
+		// other inputs of the filter (a nil guard, a flag) are tried both ways
+		for bits := 0; bits < 1<<uint(len(others)); bits++ {
+			n++
+			env := eng.Env{leaf: size}
+			for i, o := range others {
+				env[o] = int64(bits >> uint(i) & 1)
+			}
+			got, err := d.Eval(f, env)
+			if err != nil {
+				c.Unres("C20.O6", key, err.Error())
+				return
+			}
+			want := size >= min && size <= max && size&(size-1) == 0
+			if got && !want && witness == "" {
+				witness = fmt.Sprintf("a buffer of capacity %d is put into the pools although %d is not a class size: it is filed under the next larger class and a later Malloc of a size between %d and that class re-slices it beyond its capacity (panic), or hands out fewer bytes than the class promises", size, size, size+1)
+			}
 		}
 	}
 	c.ExhaustiveTbl["aligned Free filter"] = n
